@@ -484,7 +484,7 @@ read_file(econf_file *ef, const char *file,
 
     if (delim == NULL || strlen(delim) == 0 || strcmp(delim, "\n") == 0) {
       /* No delimiter is defined. Key without a value will be stored. */
-      retval = store(ef, current_group, name, data, line,
+      retval = store(ef, current_group, name, NULL, line,
 		     current_comment_before_key, current_comment_after_value,
 		     false, /* no quote */
 		     false /* new entry */);
